@@ -469,8 +469,9 @@ CallGo(name, e, st) ==
                  [r EXCEPT !.st = Pop(r.st)]
               ELSE Err(s1)
     [] name = "partial" ->
-         IF n \notin {1, 2} \/ a.vs[1].t # "str" \/ (n = 2 /\ a.vs[2].t # "map") THEN Unspec(s1)
-         ELSE RunPartial(a.vs[1].s, IF n = 2 THEN a.vs[2].m ELSE EmptyScope, s1)
+         \* (nil in the place of the data is no data: the partial still has a scope of its own)
+         IF n \notin {1, 2} \/ a.vs[1].t # "str" \/ (n = 2 /\ a.vs[2].t \notin {"map", "nil"}) THEN Unspec(s1)
+         ELSE RunPartial(a.vs[1].s, IF n = 2 /\ a.vs[2].t = "map" THEN a.vs[2].m ELSE EmptyScope, s1)
     [] OTHER -> Unspec(s1)
 
 \* partial(name, data): the named text rendered in a child of the caller's scope extended with data,
